@@ -1,4 +1,5 @@
-(* C07 — the whole connection: every lock-step history gives exactly the sequential transcript.
+(* C07 — the whole connection: every lock-step history gives exactly the sequential transcript
+   (the statement for arbitrary segmentations, of which this one is a corollary, is in Proofs/ServerConnAny.v).
    Re-exports the one-request theorems of Proofs/ServerConnOne.v. *)
 From KV Require Import Lib.Bytes Model.Headers Model.Parser Model.Body Model.Server
   Spec.HeaderStore Spec.HttpGrammar Spec.ChunkedSpec Spec.Framing Spec.ConnSpec Spec.ConnKnown
